@@ -199,10 +199,11 @@ type ScopeModel struct {
 }
 
 type scopeVar struct {
-	sc    tally.Scope
-	ptr   uintptr
-	model *ScopeModel
-	def   *OpRec
+	sc     tally.Scope
+	ptr    uintptr
+	model  *ScopeModel
+	def    *OpRec
+	parent *scopeVar
 	isNoop bool
 }
 
@@ -314,7 +315,7 @@ func (te *taskEnv) exec(op *Op, rec *OpRec) {
 				rec.Err = fmt.Sprintf("caller map mutated by Tagged: %v -> %v", op.Tags, m)
 			}
 		}
-		sv := &scopeVar{sc: sc, ptr: objPtr(sc), model: model, def: rec, isNoop: objPtr(sc) == env.noopPtr}
+		sv := &scopeVar{sc: sc, ptr: objPtr(sc), model: model, def: rec, parent: s, isNoop: objPtr(sc) == env.noopPtr}
 		rec.Ptr, rec.Obj = sv.ptr, sv
 		te.scopes[op.D] = sv
 	case "counter", "gauge", "timer", "hist":
@@ -413,6 +414,7 @@ func (te *taskEnv) exec(op *Op, rec *OpRec) {
 				rec.Err = err.Error()
 			}
 			env.rootClosed = true
+			rec.Extra = len(env.Sim.LiveLibTasks())
 		}
 	case "sleep":
 		simrt.Sleep(time.Duration(op.I))
